@@ -7,11 +7,11 @@ is all-zero / a duplicate of an earlier fragment (both supplied by the API scrip
 in the C code is a `Prim`; a fault script (`List Bool`, one entry per executed primitive) decides which of
 them fail.  `checked v p = false` marks a primitive whose result the source ignores.
 
-  IGNORED RESULTS THAT EXIST IN THE SOURCE (block processor)
-  * backend.c:141   `set_block_size(frag->inode, frag->index, 0);`  in `process_completed_fragment`, sparse
-                    branch — a failed `realloc` of the inode (backend.c:31-33) is dropped: the inode keeps
-                    `sparse += size` but has no block-size entry, the call returns 0.        (`Prim.growSparseTail`;
-                    checked in `Variant.fixed` = fixes/C13-sparse-tail-result.patch)
+  IGNORED RESULTS (block processor)
+  * snapshot only (repaired in /repo by fixes/C13-sparse-tail-result.patch, `Variant.sparseTailChecked`):
+                    `set_block_size(frag->inode, frag->index, 0);`  in `process_completed_fragment`, sparse
+                    branch — a failed `realloc` of the inode was dropped: the inode kept `sparse += size` but had no
+                    block-size entry, the call returned 0 (`Prim.growSparseTail`).  /repo as it is tests the result.
   * backend.c:90, backend.c:140   `sqfs_inode_make_extended(...)` result unused — it fails only for a
                     non-file inode type, which `sqfs_block_processor_begin_file` (frontend.c:99) rules out;
                     no primitive, not modelled as fallible.
@@ -36,7 +36,7 @@ inductive Prim
   | dedupTruncate    -- block_writer.c:115  file->truncate after a duplicate was found
   | growSparseBlock  -- backend.c:93     set_block_size for a sparse data block          (checked)
   | growDataBlock    -- backend.c:114    set_block_size for a data block                 (checked)
-  | growSparseTail   -- backend.c:141    set_block_size for an all-zero tail             (RESULT IGNORED)
+  | growSparseTail   -- backend.c:141    set_block_size for an all-zero tail             (checked since C13-sparse-tail-result; snapshot: ignored)
   | fragTableSet     -- backend.c:105    sqfs_frag_table_set
   | fragLookup       -- backend.c:157-164  hash lookup; byte compare may read the block back
                      --                  (block_processor.c:129 load_frag_block → fblk_lookup_error)
